@@ -66,6 +66,11 @@ pub enum Error {
         bytes_read: u64,
         backtrace: Backtrace,
     },
+    #[snafu(display("Unexpected item header outside a sequence at {} bytes", bytes_read))]
+    UnexpectedItemHeader {
+        bytes_read: u64,
+        backtrace: Backtrace,
+    },
     #[snafu(display("Unexpected item delimiter at {} bytes", bytes_read))]
     UnexpectedItemDelimiter {
         bytes_read: u64,
@@ -371,12 +376,17 @@ where
 
                             // entered a new item
                             self.in_sequence = false;
-                            self.push_sequence_token(
-                                SeqTokenType::Item,
-                                len,
-                                self.seq_delimiters.last()
-                                    .expect("item header should be read only inside an existing sequence")
-                                    .pixel_data);
+                            let Some(last_delimiter) = self.seq_delimiters.last() else {
+                                // item header outside of a sequence
+                                return Some(
+                                    UnexpectedItemHeaderSnafu {
+                                        bytes_read: self.parser.position(),
+                                    }
+                                    .fail(),
+                                );
+                            };
+                            let pixel_data = last_delimiter.pixel_data;
+                            self.push_sequence_token(SeqTokenType::Item, len, pixel_data);
                             // items can be empty
                             if len == Length(0) {
                                 self.delimiter_check_pending = true;
